@@ -58,9 +58,9 @@ MCSeeds == <<Seed1, Seed2, Seed3, Seed4, Seed5>>
 \* the preprocessor marker, quote characters (unterminated literal), a newline
 MCPuncts == {"(", ")", "{", "}", "[", "]", ";", ",", ":", "@", "=", "<", "+", "++", "*", "&",
              ".", "?", "->", "#", "\"", "'", "\\", "\n"}
-\* words: keywords, attributes, a number, an identifier, a type
+\* words: keywords, attributes, numbers (7 is out of range as a loop index), an identifier, a type
 MCWords == {"for", "if", "else", "while", "return", "int", "const", "struct", "void",
             "@outer", "@inner", "@shared", "@exclusive", "@kernel", "@tile", "@dim", "@barrier",
-            "@atomic", "0", "x", "#define", "#if"}
+            "@atomic", "0", "7", "x", "#define", "#if"}
 MCBrackets == {"(", ")", "{", "}", "[", "]"}
 =============================================================================
